@@ -70,7 +70,7 @@ DONE.update({
          "server cert {trusted leaf, other-CA leaf, self-signed, expired} x names x skip-verify x roots x client cert {none, client-CA, other-CA, self-signed} x server client-CA {none,set} x constructors, each followed by an echo both ways; probe client observing CertificateRequest; reload histories; client-name precedence",
          "rustls backend only; depth-1 chains"),
 })
-DONE["C04"] = (DONE["C04"][0], DONE["C04"][1], DONE["C04"][2] + "; plus loom models of a writer parked on credit against racing grants (m1,m3,m8,m11) and of the bridge parked on credit (m19)", DONE["C04"][3], DONE["C04"][4])
+DONE["C04"] = (DONE["C04"][0], DONE["C04"][1], DONE["C04"][2] + "; plus loom models of a writer parked on credit against racing grants (m1,m3,m8,m11) and of the bridge parked on credit (m19); plus part C10T (a WebSocket-level peer over real tungstenite: an endpoint that was pinged, or sent any other element, while idle still serves what follows)", DONE["C04"][3], DONE["C04"][4])
 DONE["C08"] = (DONE["C08"][0], DONE["C08"][1], DONE["C08"][2] + "; plus part C08T: the same fault enumeration (eof / reset / stall per direction, inbound end while outbound stalled, drop of either handle, at every point) with both endpoints over REAL tokio-tungstenite on an in-memory byte pipe, so that the crate's tungstenite adapter is part of the explored system", DONE["C08"][3], DONE["C08"][4])
 DONE["C06"] = (DONE["C06"][0], DONE["C06"][1], DONE["C06"][2] + "; plus loom models of an abort racing a writer parked on credit (m2,m6,m9)", DONE["C06"][3], DONE["C06"][4])
 DONE["C02"] = (DONE["C02"][0], DONE["C02"][1], DONE["C02"][2] + "; plus loom models of the real write path under racing grants (m3,m8,m12)", DONE["C02"][3], DONE["C02"][4])
